@@ -41,7 +41,7 @@ class AbstractBorrower(object):
         return self
 
     def getData(self, mibname, **options):
-        if bool(options.get('genTexts')) != self.genTexts:
+        if bool(options.get('genTexts')) != bool(self.genTexts):
             debug.logger & debug.flagBorrower and debug.logger(
                 'skipping incompatible borrower %s for file %s' % (self, mibname))
             raise error.PySmiFileNotFoundError(mibname=mibname, reader=self._reader)
